@@ -70,8 +70,9 @@ class Env:
 
 
 class Closure:
-    def __init__(self, params, splat, body, env):
+    def __init__(self, params, splat, body, env, splat_pos=None):
         self.params, self.splat, self.body, self.env = params, splat, body, env
+        self.splat_pos = len(params) if splat_pos is None else splat_pos
 
 
 def builtin_error():
@@ -350,7 +351,7 @@ class Interp:
         raise ReturnEx(self.ev(n[1], env) if n[1] is not None else None)
 
     def e_lambda(self, n, env):
-        return Closure(n[1], n[2], n[3], env)
+        return Closure(n[1], n[2], n[3], env, n[4] if len(n) > 4 else None)
 
     def e_call(self, n, env):
         f = self.ev(n[1], env)
@@ -367,25 +368,39 @@ class Interp:
             raise builtin_error()
         cenv = Env(f.env)
         params = f.params
-        nreq = len([p for p in params if p[1] is None])
+        nargs = len(args)
+        # Pattern binding of the argument list (Appendix A): a defaulted target is "in play" when there
+        # are no more values than non-splat targets before it; the defaults in play are evaluated in
+        # the call scope before any parameter is bound and appended to the values; then the values
+        # are split around the splat (first s before it, last n-s after it, the rest into the splat).
+        vals = list(args)
+        seen_default = False
+        for j, (name, d) in enumerate(params):
+            if d is not None:
+                seen_default = True
+                if nargs <= j:
+                    vals.append(self.ev(d, cenv))
+            elif seen_default:
+                raise Decline("required parameter after a default")
+        n = len(params)
         if f.splat is None:
-            if not (nreq <= len(args) <= len(params)):
+            if len(vals) != n:
                 self.note("fault:arity")
                 raise builtin_error()
-        elif len(args) < nreq:
-            self.note("fault:arity")
-            raise builtin_error()
-        # defaults are evaluated in the call scope before any parameter is bound
-        vals = list(args[:len(params)])
-        for p in params[len(vals):]:
-            vals.append(self.ev(p[1], cenv))
-        rest = list(args[len(params):])
-        for (name, _d), v in zip(params, vals):
+            bound = list(zip([p[0] for p in params], vals))
+        else:
+            if len(vals) < n:
+                self.note("fault:arity")
+                raise builtin_error()
+            sp = f.splat_pos
+            after = n - sp
+            bound = list(zip([p[0] for p in params[:sp]], vals[:sp]))
+            bound.append((f.splat, vals[sp:len(vals) - after]))
+            bound += list(zip([p[0] for p in params[sp:]], vals[len(vals) - after:]))
+        for name, v in bound:
             if name in cenv.vars:
                 raise Decline("duplicate parameter")
             cenv.vars[name] = v
-        if f.splat is not None:
-            cenv.vars[f.splat] = rest
         self.note("call")
         try:
             return self.ev(f.body, cenv)
@@ -650,7 +665,7 @@ def render(n):
         for name, d in n[1]:
             ps.append(name if d is None else "%s = %s" % (name, render(d)))
         if n[2] is not None:
-            ps.append("..." + n[2])
+            ps.insert(n[4] if len(n) > 4 else len(ps), "..." + n[2])
         return "(\\%s -> %s)" % (", ".join(ps), render(n[3]))
     if t == "call":
         return "%s(%s)" % (render(n[1]) if n[1][0] == "var" else "(" + render(n[1]) + ")", ", ".join(render(a) for a in n[2]))
